@@ -31,7 +31,7 @@ func (p *Connect) IDecode(data []byte) error {
 
 	p.Header = cmpp.ReadHeader(buf)
 	p.SourceAddr = buf.ReadCStringN(6)
-	p.AuthenticatorSource = buf.ReadCStringN(16)
+	p.AuthenticatorSource = buf.ReadCStringNWithoutTrim(16)
 	p.Version = buf.ReadUint8()
 	p.Timestamp = buf.ReadUint32()
 
@@ -106,7 +106,7 @@ func (c *ConnectResp) IDecode(data []byte) error {
 
 	c.Header = cmpp.ReadHeader(buf)
 	c.Status = buf.ReadUint32()
-	c.AuthenticatorISMG = buf.ReadCStringN(16)
+	c.AuthenticatorISMG = buf.ReadCStringNWithoutTrim(16)
 	c.Version = buf.ReadUint8()
 	return buf.Error()
 }
